@@ -4,8 +4,10 @@ patch="$1"; shift
 cd /repo || exit 2
 if [ -n "$(git status --porcelain -- . ':!go.mod')" ]; then echo "repo not clean"; git status --short; exit 2; fi
 git apply "$patch" || { echo "patch does not apply"; exit 2; }
+bak=$(mktemp -d /tmp/evbak.XXXXXX); cp -a /verif/evidence/. "$bak"/ 2>/dev/null
 for id in "$@"; do
   echo "== $id"
   ( cd /verif && timeout 1500 ./check $id quick 2>&1 | grep -E "^VIOLATION|^KNOWN|^property|TOOLING|STALE|VACUOUS|failed obligation" | cut -c1-260 )
 done
 git checkout -- . ; git status --short
+rm -rf /verif/evidence/*; cp -a "$bak"/. /verif/evidence/ 2>/dev/null; rm -rf "$bak"   # evidence of mutant runs is not kept
